@@ -7,7 +7,7 @@ def spec(tier):
     K = 12
     for n in (1, 2, 3):
         # the write-out length is split into ranges so that each condition stays small
-        for (lo, hi) in ((1, 19), (20, 39), (40, 59), (60, 79)) if (th or n == 2) else ((1, 45),):
+        for (lo, hi) in ((1, 19), (20, 39), (40, 59), (60, 79)) if (th or n == 2) else ((1, 19), (20, 45)):
             sym = dict(ram=I(lo, hi), s=I(0, 6), d0=I(1, 2), d1=I(1, 2))
             fixed = dict(n=n, s2=-1, dB=3, rB=7, K=K, d2=1)
             if n == 3:
